@@ -112,22 +112,46 @@ fn check_logs(inst: &mut Inst, world: &World, topic_len: usize) -> Vec<(String, 
     ranges.push((None, Some(h)));
     ranges.dedup();
     let tfs = topic_filters(topic_len);
+    let tfs_short = topic_filters(1);
     let mut evaluated = 0u64;
     let mut nonempty = 0u64;
+    // (fromBlock text, toBlock text, resolved from, resolved to, topic filters to use)
+    let mut queries: Vec<(Option<String>, Option<String>, u64, u64, &Vec<Vec<Tf>>)> = Vec::new();
     for (f, t) in &ranges {
         let from = f.unwrap_or(h);
         let to = t.unwrap_or(from);
+        queries.push((f.map(|f| format!("{}", f)), t.map(|t| format!("0x{:x}", t)), from, to, &tfs));
+    }
+    // block tags: latest = safe = finalized = the head, pending = the next height, earliest = 0
+    let tag = |s: &str| -> u64 {
+        match s {
+            "earliest" => 0,
+            "pending" => h + 1,
+            _ => h,
+        }
+    };
+    for (f, t) in [(Some("latest"), Some("latest")), (Some("earliest"), Some("latest")), (Some("earliest"), Some("0x5")), (Some("latest"), Some("pending")), (Some("safe"), None), (Some("finalized"), Some("finalized")), (None, Some("pending")), (Some("pending"), Some("pending")), (Some("earliest"), Some("earliest"))] {
+        let from = f.map(tag).unwrap_or(h);
+        let to = match t {
+            Some("0x5") => 5,
+            Some(x) => tag(x),
+            None => from,
+        };
+        queries.push((f.map(|x| x.to_string()), t.map(|x| x.to_string()), from, to, &tfs_short));
+    }
+    for (ftext, ttext, from, to, tfs) in &queries {
+        let (from, to) = (*from, *to);
         let reversed = to < from;
         let too_wide = !reversed && to - from > 5;
         let in_range: Vec<Value> = if reversed || too_wide { vec![] } else { (from..=to).flat_map(|b| logs_of(b)).collect() };
         for a in &addrs {
-            for tf in &tfs {
+            for tf in tfs.iter() {
                 let mut filter = serde_json::Map::new();
-                if let Some(f) = f {
-                    filter.insert("fromBlock".into(), json!(format!("{}", f)));
+                if let Some(f) = ftext {
+                    filter.insert("fromBlock".into(), json!(f));
                 }
-                if let Some(t) = t {
-                    filter.insert("toBlock".into(), json!(format!("0x{:x}", t)));
+                if let Some(t) = ttext {
+                    filter.insert("toBlock".into(), json!(t));
                 }
                 if let Some(a) = a {
                     filter.insert("address".into(), json!(a));
